@@ -318,7 +318,7 @@ func (h *harness) checkSub(s *subState) {
 
 // summary computes the coverage facts of the executed case.
 func (h *harness) summary() *result {
-	res := &result{failure: h.failure, emits: len(h.all), trace: strings.Join(h.trace, " | ")}
+	res := &result{excluded: h.excluded, failure: h.failure, emits: len(h.all), trace: strings.Join(h.trace, " | ")}
 	overlap := func(x *emitRec, from, to int64) bool {
 		if x.begin == 0 || from == 0 {
 			return false
